@@ -62,8 +62,9 @@ class PBlock:
     """a padded render output as produced by Padding.pad under its C05 contract: (t + h + b) lines of (l + w + r)
     columns, the block at offset (l, t)"""
 
-    def __init__(self, id, w, h, l, t, r, b):
+    def __init__(self, id, w, h, l, t, r, b, sep=None):
         self.id, self.w, self.h, self.l, self.t, self.r, self.b = id, w, h, l, t, r, b
+        self.sep = sep       # None: lines joined by newlines; else every newline has been replaced by this string
 
     def __repr__(self):
         return f"PBlock({self.id},{self.w}x{self.h},+{self.l},{self.t},{self.r},{self.b})"
@@ -289,6 +290,11 @@ def str_method(recv, name, args):
                     newsep.append(p)
                 return TS([Block(b.id, b.w, b.h, concat(newsep) if not isinstance(concat(newsep), str) else TS([concat(newsep)]), b.meta)])
             raise Unsupported("replace on block")
+        if isinstance(recv, TS) and len(recv.items) == 1 and isinstance(recv.items[0], PBlock) and old == "\n":
+            b = recv.items[0]
+            if b.sep is not None:
+                raise Unsupported("second replace on a padded block")
+            return TS([PBlock(b.id, b.w, b.h, b.l, b.t, b.r, b.b, sep=as_ts(new))])
         if isinstance(recv, str) and isinstance(old, str):
             parts = recv.split(old)
             out = []
@@ -778,6 +784,16 @@ class VT:
         if g["parser"] != "ground":
             raise Unsupported("block inside a control sequence")
         PW, PH = b.l + b.w + b.r, b.t + b.h + b.b
+        if b.sep is not None:
+            # the newlines of the padded output were replaced: spell the output out (contract of Padding.pad) and interpret it
+            sep = b.sep
+            g["arow"], g["acol"] = g["row"] + b.t, g["col"] + b.l
+            pieces = [Rep(TS([Text(PW, " ")] + sep.items), b.t), Text(b.l, " "),
+                      Block(b.id, b.w, b.h, sep=TS([Text(b.r, " ")] + sep.items + [Text(b.l, " ")])), Text(b.r, " "),
+                      Rep(TS(sep.items + [Text(PW, " ")]), b.b)]
+            for p_ in pieces:
+                self.piece(p_)
+            return
         self.oblige("padded-render-starts-at-column-0", z3.Or(to_z3(g["col"]) == 0, PH == 1), kind="geometry")
         self.oblige("never-wraps", to_z3(g["col"]) + PW <= to_z3(g["TW"]), kind="geometry")
         g["arow"], g["acol"] = g["row"] + b.t, If(PH == 1, g["col"], 0) + b.l
